@@ -26,9 +26,10 @@ LITS = {
     'dt': ('dt', (2020, 6, 15, 12, 0, 0, 0), 0, 'UTC'), 'numf': NUM(2.5), 'neg': NUM(-3), 'str2': ('str', 'hello world'),
     'false': ('bool', False), 'qty2': NUM(1.5, u'\u00b0C'),
     'str-esc': ('str', 'q"uo\\te'), 'str-uni': ('str', u'caf\u00e9 \U0001f600'), 'str-nl': ('str', 'two\nlines'),
+    'str-blanks': ('str', 'two  blanks'), 'uri-blanks': ('uri', 'a  b'), 'refdis-blanks': ('ref', 'x', 'Dis  play'),
     'uri-esc': ('uri', 'http://u/`tick'), 'inf': NUM(float('inf')), 'ninf': NUM(float('-inf')), 'refdis': ('ref', 'x', 'Dis play'),
 }
-EXTRA_LITS = ('dt', 'numf', 'neg', 'str2', 'false', 'qty2', 'str-esc', 'str-uni', 'str-nl', 'uri-esc', 'inf', 'ninf')
+EXTRA_LITS = ('dt', 'numf', 'neg', 'str2', 'false', 'qty2', 'str-esc', 'str-uni', 'str-nl', 'uri-esc', 'inf', 'ninf', 'str-blanks', 'uri-blanks')
 POOL = {
     # value pool per data tag: covers equal / below / above / other kind / other unit for every literal above
     'a': [None, D.NULL, D.MARKER, NUM(5), NUM(4), NUM(6), NUM(5.0), NUM(2.5), NUM(-3), NUM(5, 'kg'), NUM(4, 'kg'), NUM(6, 'kg'),
@@ -37,6 +38,7 @@ POOL = {
           ('uri', 'http://u/'), ('uri', 'http://v/'), ('ref', 'x', None), ('ref', 'y', None),
           ('dt', (2020, 6, 15, 12, 0, 0, 0), 0, 'UTC'), ('dt', (2020, 6, 15, 22, 0, 0, 0), 36000, 'Brisbane'),
           ('dt', (2021, 1, 1, 0, 0, 0, 0), 0, 'UTC'), ('str', 'hello world'), NUM(1.5, u'\u00b0C'), ('coord', 1.0, 2.0),
+          ('str', 'two  blanks'), ('str', 'two blanks'), ('uri', 'a  b'), ('uri', 'a b'),
           ('str', 'q"uo\\te'), ('str', u'caf\u00e9 \U0001f600'), ('str', 'two\nlines'), ('uri', 'http://u/`tick'), NUM(float('inf')),
           NUM(float('-inf')), NUM(1e300)],
     'r': [None, ('ref', 'x', None), ('ref', 'y', None), ('ref', 'nowhere', None), ('str', 'x'), D.MARKER, NUM(5), ('ref', 'x', 'Dis')],
